@@ -212,6 +212,26 @@ Proof.
     + discriminate.
 Qed.
 
+(* the same with an experimental design: the columns follow the design's order of experiments *)
+Lemma quantify_design_rows ibaq cutoff_of ns groups rows dexps exps out :
+  quantify_design ibaq cutoff_of ns groups rows dexps = Ok (exps, out) ->
+  let s := create_index (of_list groups) in
+  let cut := cutoff_of (cutoff_peps s rows) in
+  exps = dexps /\
+  Forall2 (fun ig r => quant_row ibaq cut dexps ns (snd ig) (attached s rows (fst ig)) = Ok r)
+          (filter (fun ig => nonempty (attached s rows (fst ig))) (combine (seq 0 (length groups)) groups)) out.
+Proof.
+  unfold quantify_design. cbv zeta.
+  set (s := create_index (of_list groups)). set (cut := cutoff_of (cutoff_peps s rows)).
+  set (wp := filter _ _). clearbody wp.
+  destruct (fold_right _ _ wp) as [l|e] eqn:EF; [|discriminate]. intros H. inversion H. subst. split; [reflexivity|].
+  clear H. revert out EF. induction wp as [|ig wp IH]; intros out EF; simpl in EF.
+  - inversion EF. constructor.
+  - destruct (quant_row ibaq cut _ ns (snd ig) (attached s rows (fst ig))) as [r|e] eqn:ER.
+    + destruct (fold_right _ _ wp) as [a|e']; [|discriminate]. inversion EF. subst out. constructor; [exact ER | apply IH; reflexivity].
+    + discriminate.
+Qed.
+
 Lemma attached_iff_groups groups rows g r :
   let s := create_index (of_list groups) in
   In r (attached s rows g) <->
